@@ -188,6 +188,28 @@ def dominating_facts(fc, bb):
                 if outcome == "false":
                     op = {"Lt": "Ge", "Ge": "Lt", "Gt": "Le", "Le": "Gt", "Eq": "Ne", "Ne": "Eq"}[op]
                 out.append((op, a, b))
+    # a conjunction stored in a bool first (`let ok = a >= 1 && a <= n; if ok { .. a - 1 .. }`): the bool is `false` on the
+    # short-circuit paths and the last operand otherwise, so behind its true edge everything that dominates the last operand's
+    # definition holds, and so does that operand
+    for sb, ce in fc.ces.items():
+        e = ce.expr
+        if ce.true_target is None or e[0] != "local" or e[2] or m.locals[e[1]] != "bool":
+            continue
+        ds = m.whole_defs(e[1])
+        if len(ds) < 2:
+            continue
+        exprs = [(d, fc._def_expr(d)) for d in ds]
+        nonconst = [(d, x) for d, x in exprs if E.strip_casts(x)[0] != "const"]
+        if len(nonconst) != 1 or any(E.strip_casts(x) != ("const", 0) for d, x in exprs if E.strip_casts(x)[0] == "const"):
+            continue
+        if bb in m.reachable(0, removed_edges=[(sb, ce.true_target)]):
+            continue
+        d, x = nonconst[0]
+        if d[1] != bb:
+            out.extend(f for f in dominating_facts(fc, d[1]) if f not in out)
+        c = cmp_norm(E.strip_casts(x))
+        if c is not None:
+            out.append(c)
     # a bounds check that passed: index < len holds in everything its success edge dominates
     for blk in m.blocks:
         t = blk.term
